@@ -284,5 +284,15 @@ func ExtremesFamily() []Named {
 		&Def{Kind: "struct", Name: "OuterMap", Fields: []Field{f("ms", MapOf("uint8", Simple("HoldU"))), f("tail", Simple("int32"))}},
 		&Def{Kind: "message", Name: "OuterMsg", Fields: []Field{mf(1, "s", Simple("HoldM")), mf(2, "tail", Simple("int32"))}})
 	out = append(out, Named{"extremes/structs-holding-length-prefixed-records", s})
+
+	// containers that C06 fills with 20 000 elements
+	s = &Schema{}
+	s.Defs = append(s.Defs,
+		&Def{Kind: "struct", Name: "BigElem", Fields: []Field{f("a", Simple("int32")), f("s", Simple("string"))}},
+		&Def{Kind: "struct", Name: "BigMapS", Fields: []Field{f("m", MapOf("uint32", Simple("uint32"))), f("tail", Simple("int32"))}},
+		&Def{Kind: "struct", Name: "BigArrS", Fields: []Field{f("es", ArrayOf(Simple("BigElem"))), f("tail", Simple("int32"))}},
+		&Def{Kind: "struct", Name: "BigStrS", Fields: []Field{f("ss", ArrayOf(Simple("string"))), f("gs", ArrayOf(Simple("guid")))}},
+		&Def{Kind: "message", Name: "BigM", Fields: []Field{mf(1, "m", MapOf("int64", Simple("int64"))), mf(2, "a", ArrayOf(Simple("int32"))), mf(3, "ms", MapOf("uint32", Simple("string")))}})
+	out = append(out, Named{"extremes/big-containers", s})
 	return out
 }
